@@ -61,6 +61,10 @@ var c20HashTable = map[string]struct{ pkg, ctor, sizeConst, reason string }{
 	"sha1":   {"crypto/sha1", "New", "Size", "blobref name sha1 = FIPS 180-4 SHA-1 (camlistore's original hash)"},
 	"sha224": {"crypto/sha256", "New224", "Size224", "blobref name sha224 = FIPS 180-4 SHA-224 (perkeep's default since 2018)"},
 	"sha256": {"crypto/sha256", "New", "Size", "blobref name sha256 = FIPS 180-4 SHA-256"},
+	// not families today; listed so that adding one of the two obvious next
+	// families correctly does not need a checker change (exercised by selftest)
+	"sha384": {"crypto/sha512", "New384", "Size384", "FIPS 180-4 SHA-384"},
+	"sha512": {"crypto/sha512", "New", "Size", "FIPS 180-4 SHA-512"},
 }
 
 type c20Fam struct {
